@@ -26,7 +26,22 @@ PLAN = dict(
          "of every produced message plus generated trees with all length-octet boundaries; object histories: one parsed object "
          "(or one builder) receives a scripted prefix (verify, alter p7.Content in place, restore, replace, resize; recipient A, "
          "stranger, recipient B, A; right/wrong/right key; add, Finish, Finish, add, Finish) followed by a seeded random walk over "
-         "content operations x the five Verify* variants / the decrypt attempts, every step compared with a freshly parsed object. End-entity keys, serial numbers and "
+         "content operations x the five Verify* variants / the decrypt attempts, every step compared with a freshly parsed object; "
+         "builders also RemoveUnauthenticatedAttributes / RemoveAuthenticatedAttributes followed by Finish; options: no-attribute "
+         "signers with a signature identifier chosen through SetEncryptionAlgorithm (rsaEncryption, the curve, SM2-1), recipients "
+         "named by the key identifier derived from the key (RFC 5280 method 1) opened with a certificate that lacks the extension, "
+         "caller-provided Session (New*EnvelopedDataWithSession / ParseWithSession), digest-only signing of a short digest "
+         "(refusal or a verifying message). Caller buffers: EVERY byte argument of every producing call in every workload (content, "
+         "digest, pre-shared key) is handed over in a buffer whose shape is drawn per call - exact, dirty spare capacity of "
+         "pad-1 / pad / pad+1 / 15 / 16 / 17 / 32 / 4096 bytes, a window into a live buffer, a three-index slice inside one, guard "
+         "page at the end or the start - the caller's memory is compared with a private copy after every library call (bytes "
+         "visible through len, in front of the slice or behind cap: violation; bytes in [len:cap]: counted), the caller overwrites "
+         "its buffers after the last Add* call (coin) and always after the producing call, and every oracle compares with the private "
+         "original; c16.buffers.* enumerate that product: 16 producing routes (10 envelope APIs, EnvelopedData builders in all four "
+         "recipient encodings, with a Session) x 12 content ciphers x 14 buffer shapes, 95 SignedData templates (all modes, 1-3 "
+         "signers, cfca wrappers) x shapes, overwrite points after the constructor / after the last Add* / after Finish, Finish "
+         "output overwritten before the next Finish, message, detached content / digest and pre-shared key of the consuming calls "
+         "in shaped buffers, a returned plaintext overwritten before the same parsed object decrypts again. End-entity keys, serial numbers and "
          "contents come from the case PRNG; a case is non-trivial unless marked (empty DER content); distinct = distinct class "
          "keys (configuration | api / mode / OID family / verification path / signer (key-digest-attributes) list or "
          "api / cipher / recipient kinds | content-length class)",
@@ -37,6 +52,8 @@ PLAN = dict(
     + _both("c16.history.signed", (2, 8), 300, None, _SIG)
     + _both("c16.history.env", (1, 4), 300)
     + _both("c16.history.builder", (1, 2), 100, None, _SIG)
+    + _both("c16.buffers.env", (1, 4), 1000)
+    + _both("c16.buffers.signed", (1, 2), 300, None, _SIG)
     + [J("c16.sha1", ["sha1ok"], "asm", (1, 4), floor=20, env=_ENV, procs=2, deadline="120s"),
        J("c16.ber.der", ["avx2"], "asm", (1, 2), floor=1000, env=_ENV, procs=2),
        J("c16.ber.variants", ["avx2"], "asm", (1, 2), floor=100, env=_ENV, procs=2)],
@@ -51,6 +68,13 @@ PLAN = dict(
         "a trust store also TBSCertificate, signature algorithm and signature value of the signer certificate. Every signer of "
         "the altered message must be a signer of the original (a SignerInfo can be dropped: PKCS#7 does not bind the set).",
         "panics inside parsers on altered bytes are counted, not judged (property C13)",
+        "a caller does not touch the content buffer while a builder call runs; between the constructor and AddSigner a change "
+        "of the buffer may or may not be picked up (SignedData and SignedAndEnvelopedData keep the slice): both are accepted",
+        "a curve identifier (P-256 / P-384 / P-521) in the place of a signature algorithm means ECDSA with the hash of the "
+        "digest identifier, whatever the curve named: the three are one algorithm for the semantic comparison, as the five RSA "
+        "identifiers are",
+        "a recipient named by key identifier is intended for every certificate of that key: one without the SubjectKeyIdentifier "
+        "extension stands for the SHA-1 identifier of the key (what the library computes)",
         "an ECDSA digest-only signature binds only the leftmost order-length bits of a longer digest (FIPS 186-4 6.4); the "
         "wrong-digest check flips a bit inside that part",
         "a pre-shared key of an unauthenticated cipher (CBC, ECB) that differs from the right one may yield garbage without "
@@ -69,10 +93,16 @@ CLAIM = dict(
          "and indefinite-length / long-form / constructed-string BER variants of honest messages normalise to the DER original "
          "or to something that parses to the same content; on one parsed object verdicts and plaintexts of a sequence of "
          "Verify* / Decrypt* calls interleaved with changes of p7.Content equal those of freshly parsed objects, and every Finish "
-         "output of one builder parses and verifies / opens. Exploration: soundness is decided on the single-byte substitution "
-         "class only.",
+         "output of one builder parses and verifies / opens. No producing or consuming call changes a byte the caller can see "
+         "through the slices it handed over (content, digest, pre-shared key, message, detached content) or outside them, whatever "
+         "the capacity or placement of the buffer, and no produced message or parsed result depends on a caller buffer after the "
+         "last call that takes it returned, or on a slice the library returned earlier. Observed without verdict (the API promises "
+         "neither): writes into spare capacity [len:cap] (the CBC / ECB padding is appended there), builders keeping the content by "
+         "reference between constructor and AddSigner (every use must then show the value at construction or at call time, "
+         "consistently), parsed objects after the message buffer was overwritten. Exploration: soundness is decided on the "
+         "single-byte substitution class only.",
     design_ref="DESIGN.md 6 (C16)",
     note="trusted: Go crypto/x509-style parsing inside smx509 for the PKI the harness builds with smx509.CreateCertificate, "
          "encoding/asn1, the harness's structural DER reader (self-tested at start), the generator's own fields as oracle",
-    technique="round-trip laws + semantic-equality-under-alteration monitor + recipient/non-recipient accept-set + DER fixed-point monitor (verif hook VerifBER2DER)",
+    technique="round-trip laws + semantic-equality-under-alteration monitor + recipient/non-recipient accept-set + DER fixed-point monitor (verif hook VerifBER2DER) + caller-buffer audit (private copies, guard pages)",
 )
